@@ -84,7 +84,7 @@ func runC10(w *World, r *Report) {
 		}
 	}
 	r.Rule("pool-disjoint", "every buffer put into the pool has backing storage of its own", 1)
-	r.Rule("inframe", "no packet-header decoder the parser reaches indexes or re-slices its input beyond its length (the C08 bounds rule): behind a frame, the pooled buffer holds earlier frames", 200)
+	r.Rule("inframe", "no packet-header decoder the parser reaches indexes or re-slices its input beyond its length (the C08 bounds rule): behind a frame, the pooled buffer holds earlier frames", 150)
 	so, miss := w.streamObjs()
 	if miss != "" {
 		r.Fail(VViolation, "roles", "util.MessageStream", "", "-", miss)
